@@ -161,7 +161,10 @@ pub fn check(c: &Case) -> Outcome {
             }
             Err(e) => return Outcome::viol(format!("{}: sol({:e}) failed for a reported requested time: {}", name, t, e)),
         }
-        if plain.status == Status::Success && c.base.method != Meth::RK4 {
+        // accuracy "of C01/C07": C07's order statement holds in the asymptotic range, so samples inside
+        // steps that are long compared with the solution's time scale (h*rate > 1) are not judged
+        let coarse = steps.windows(2).any(|w| (t - w[0]) * d >= 0.0 && (w[1] - t) * d >= 0.0 && prob.rate_t() * (w[1] - w[0]).abs() > 1.0);
+        if plain.status == Status::Success && c.base.method != Meth::RK4 && !coarse {
             let ex = prob.exact(*t);
             let err = max_abs_diff(&ex, yi);
             if err > acc_bound {
@@ -205,7 +208,7 @@ pub fn run(ctx: &Ctx, known: &[Known]) -> Report {
     let stats = run_generated(ctx, "C05", "gen", &strategy, &check, cases, known);
     Report {
         id: "C05".into(),
-        rule: "two-phase cases: a plain dense run gives the accepted-step grid; up to 24 requested times are placed on it (a grid point, +-1e-13 / 5e-13 / 2e-12 / 1e-9 beside one, mid-step, span fractions, x0, xend, duplicates by coincidence of anchors), sorted in the direction of integration; variants with 1..3 event functions (terminal or not) and with a step budget; six methods, both directions; every case runs with dense_output on and off. Oracle: (a) bitwise equality with t_eval under Success, (b) value = Solution::sol of the dense twin (bit-identical away from step ends), (c) accuracy bound against the exact solution, (d) completeness / no overshoot on early stop with the terminal point as the only extra entry, (e) independence of dense_output. Non-trivial = a requested time within 1e-9 of an interior step end, or a duplicate, or an early stop. Distinct = distinct canonical JSON.".into(),
+        rule: "two-phase cases: a plain dense run gives the accepted-step grid; up to 24 requested times are placed on it (a grid point, +-1e-13 / 5e-13 / 2e-12 / 1e-9 beside one, mid-step, span fractions, x0, xend, duplicates by coincidence of anchors), sorted in the direction of integration; variants with 1..3 event functions (terminal or not) and with a step budget; six methods, both directions; every case runs with dense_output on and off. Oracle: (a) bitwise equality with t_eval under Success, (b) value = Solution::sol of the dense twin (bit-identical away from step ends), (c) accuracy bound against the exact solution for samples in steps with h*rate <= 1, (d) completeness / no overshoot on early stop with the terminal point as the only extra entry, (e) independence of dense_output. Non-trivial = a requested time within 1e-9 of an interior step end, or a duplicate, or an early stop. Distinct = distinct canonical JSON.".into(),
         assumptions: vec![
             "requested times within 2e-12 (twice the handler's documented resolution) of a step end may carry the stored state or the neighbouring segment's value: compared with max|f|*4e-12 slack".into(),
             "accuracy bound C=20 * kappa * naccpt * tolscale as in C01".into(),
